@@ -35,7 +35,7 @@ ASSUMPTIONS = [
     "storage dtype = dtype given to the constructor; sampled output is JAX's "
     "default 32-bit type of it",
 ]
-TIMEOUT = {"quick": 600, "thorough": 2400}
+TIMEOUT = {"quick": 600, "thorough": 7000}
 
 SCHEMAS = [
     dict(keys=None, kw={}, shapes=[(3,), (2,), (), (3,), ()]),
